@@ -479,4 +479,12 @@ def do_replay(prop, path):
 
 
 if __name__ == "__main__":
-    sys.exit(main())
+    try:
+        rc = main()
+    except SystemExit:
+        raise
+    except BaseException:
+        traceback.print_exc()
+        print("ENGINE-ERROR: the check crashed (no verdict)")
+        rc = 3
+    sys.exit(rc)
